@@ -69,3 +69,8 @@ pub fn verif_u64_from_be(b: [u8; 8]) -> (r: u64)
   ensures r as nat == be64(b@)
 { u64::from_be_bytes(b) }
 
+
+#[verifier::external_body]
+pub fn verif_u16_to_be(n: u16) -> (r: Vec<u8>)
+  ensures r@ == to_be16(n as nat)
+{ n.to_be_bytes().to_vec() }
